@@ -37,7 +37,11 @@ func c14ForEach(r *rand.Rand) Case {
 	default:
 		n := r.Intn(4)
 		for i := 0; i < n; i++ {
-			items = append(items, fmt.Sprintf("i%d", i))
+			if r.Intn(4) == 0 {
+				items = append(items, "") // an empty item is an item like any other
+			} else {
+				items = append(items, fmt.Sprintf("i%d", i))
+			}
 		}
 		op.Items = items
 		if n == 0 {
@@ -52,8 +56,9 @@ func c14ForEach(r *rand.Rand) Case {
 	if r.Intn(2) == 0 {
 		body.Ops = append(body.Ops, pOp{Kind: "set", Data: map[string]any{"last": "w"}})
 	}
-	failAt := ""
+	failAt, hasFail := "", false
 	if len(items) > 0 && r.Intn(3) == 0 {
+		hasFail = true
 		// fail at one particular item: a child step guarded by a condition on the loop variable
 		failAt = items[r.Intn(len(items))]
 		body.Children = append(body.Children, &pAct{Name: "guard", Order: 1, When: pCond{Kind: "eq", K: v, S: failAt},
@@ -69,7 +74,7 @@ func c14ForEach(r *rand.Rand) Case {
 	}
 	op.Body = body
 	root := &pAct{Name: "r", Ops: []pOp{op, {Kind: "log", Tmpl: []tpart{{Lit: "after"}}}}}
-	c := execCase("foreach", root, data, failAt != "")
+	c := execCase("foreach", root, data, hasFail)
 	// Go-side: variable gone, other data undisturbed (except what the body set)
 	if d, ok := c.Desc.(map[string]any); ok {
 		if fin, ok := d["final"].(map[string]any); ok {
@@ -92,10 +97,11 @@ func c14ForEach(r *rand.Rand) Case {
 				}
 			}
 			want := items
-			if failAt != "" {
+			if hasFail {
 				for i, it := range items {
 					if it == failAt {
 						want = items[:i+1]
+						break
 					}
 				}
 			}
@@ -160,6 +166,7 @@ func c14Call(r *rand.Rand) Case {
 	// copy the argument out through a set op that merges at a path read by a template is not expressible with
 	// {{ .k }} for dotted paths; the callee logs a top-level key when possible and always traces
 	callee.Ops = append(callee.Ops, pOp{Kind: "trace", ID: "in-" + readPath})
+	callee.Ops = append(callee.Ops, pOp{Kind: "log", Tmpl: []tpart{{Lit: "x="}, {Var: readPath + ".x"}}}) // reads the argument inside
 	if r.Intn(3) == 0 {
 		callee.Ops = append(callee.Ops, pOp{Kind: "abort", Tmpl: []tpart{{Lit: "callee fails"}}})
 	}
@@ -176,10 +183,14 @@ func c14Call(r *rand.Rand) Case {
 	if r.Intn(4) == 0 {
 		add(pOp{Kind: "define", Name: name, Body: leafAct("second", pOp{Kind: "trace", ID: "second"})}) // same name twice
 	}
-	add(pOp{Kind: "call", Name: name, ArgsPath: ap, Args: map[string]string{"x": "1", "y": "v"}})
+	firstArgs := litArgs(map[string]string{"x": "1", "y": "v"})
+	if r.Intn(2) == 0 { // rendered against the data as it is when the call starts
+		firstArgs = map[string]any{"x": []tpart{{Var: "flag"}, {Lit: "-1"}}, "n": map[string][]tpart{"f": {{Lit: "<"}, {Var: "flag"}, {Lit: ">"}}}}
+	}
+	add(pOp{Kind: "call", Name: name, ArgsPath: ap, Args: firstArgs})
 	add(pOp{Kind: "log", Tmpl: []tpart{{Lit: "after call"}}})
 	if r.Intn(3) == 0 {
-		add(pOp{Kind: "call", Name: name, ArgsPath: ap, Args: map[string]string{"x": "2"}})
+		add(pOp{Kind: "call", Name: name, ArgsPath: ap, Args: litArgs(map[string]string{"x": "2"})})
 	}
 	c := execCase("call", root, data, strings.Contains(ap, "."))
 	if d, ok := c.Desc.(map[string]any); ok {
@@ -190,6 +201,59 @@ func c14Call(r *rand.Rand) Case {
 			cfg, _ := fin["cfg"].(map[string]any)
 			if cfg == nil || cfg["keep"] != "me" || !reflect.DeepEqual(cfg["sub"], map[string]any{"x": 1}) {
 				c.Fail = append(c.Fail, "call disturbed data next to its arguments path")
+			}
+		}
+	}
+	return c
+}
+
+// a call inside a forEach body: the arguments (top-level and nested) are rendered anew on every call
+func c14CallInLoop(r *rand.Rand) Case {
+	data := map[string]any{"flag": "yes"}
+	n := 2 + r.Intn(3)
+	var items []string
+	for i := 0; i < n; i++ {
+		items = append(items, fmt.Sprintf("i%d", i))
+	}
+	ap := []string{"", "myargs", "p.q"}[r.Intn(3)]
+	readPath := "args"
+	if ap != "" {
+		readPath = ap
+	}
+	callee := leafAct("callee", pOp{Kind: "log", Tmpl: []tpart{{Lit: "got="}, {Var: readPath + ".top"}, {Lit: "/"}, {Var: readPath + ".sub.v"}, {Lit: "/"}, {Var: readPath + ".sub.w"}}})
+	call := pOp{Kind: "call", Name: "fn", ArgsPath: ap, Args: map[string]any{
+		"top": []tpart{{Var: "it"}},
+		"sub": map[string][]tpart{"v": {{Lit: "<"}, {Var: "it"}, {Lit: ">"}}, "w": {{Lit: "const"}}},
+	}}
+	body := &pAct{Name: "body", Ops: []pOp{call}}
+	if r.Intn(2) == 0 { // the data changes between two calls of one body run as well
+		body = &pAct{Name: "body", Children: []*pAct{
+			{Name: "c1", Order: 1, Ops: []pOp{call}},
+			{Name: "c2", Order: 2, Ops: []pOp{{Kind: "set", Data: map[string]any{"it": "changed"}}}},
+			{Name: "c3", Order: 3, Ops: []pOp{call}},
+		}}
+	}
+	root := &pAct{Name: "r", Children: []*pAct{
+		{Name: "s0", Order: 0, Ops: []pOp{{Kind: "define", Name: "fn", Body: callee}}},
+		{Name: "s1", Order: 1, Ops: []pOp{{Kind: "foreach", Var: "it", Items: items, Body: body}}},
+	}}
+	c := execCase("call-in-loop", root, data, true)
+	if d, ok := c.Desc.(map[string]any); ok {
+		if evs, ok := d["events"].([]string); ok {
+			var seen, want []string
+			for _, e := range evs {
+				if strings.HasPrefix(e, "L:got=") {
+					seen = append(seen, strings.TrimPrefix(e, "L:got="))
+				}
+			}
+			for _, it := range items {
+				want = append(want, it+"/<"+it+">/const")
+				if len(body.Children) > 0 {
+					want = append(want, "changed/<changed>/const")
+				}
+			}
+			if !reflect.DeepEqual(seen, want) {
+				c.Fail = append(c.Fail, fmt.Sprintf("callee saw arguments %v, expected %v", seen, want))
 			}
 		}
 	}
@@ -268,15 +332,17 @@ func c14Loop(r *rand.Rand) Case {
 func init() {
 	register(&Prop{
 		ID:   "C14",
-		Rule: "kinds: foreach (literal items / list query / leaf query / unresolved query; variable name default or custom; body = log of the variable + optional trace/set + failure at one chosen item through a guarded child step or always; body's own when ignored), foreach-container (each key exactly once, any order; Go side only), call (define then call with single-key, default and dotted argsPath incl. paths next to existing data; undefined callee; same name defined twice; failing callee; second call), loop (counter loops with bounds 0-5 whose body and post-action log the counter, post increments it; body failing at i=0; loops whose test is false at once). Observables: full event sequence, error, final data vs the Coq interpreter; Go side: variable / arguments absent afterwards, unrelated data undisturbed, items x body in order up to the failure, init,(test,body,post)^n,test. Non-trivial: failure at an inner item / dotted argsPath / >= 2 iterations. Distinct by Gallina term.",
+		Rule: "kinds: foreach (literal items / list query / leaf query / unresolved query; variable name default or custom; body = log of the variable + optional trace/set + failure at one chosen item through a guarded child step or always; body's own when ignored), foreach-container (each key exactly once, any order; Go side only), call (define then call with single-key, default and dotted argsPath incl. paths next to existing data; undefined callee; same name defined twice; failing callee; second call; literal and templated arguments incl. a nested map, read back inside the callee), call-in-loop (a call in a forEach body, once or twice per item with the data changed in between: top-level and nested arguments must be rendered anew every time), literal items incl. the empty string, loop (counter loops with bounds 0-5 whose body and post-action log the counter, post increments it; body failing at i=0; loops whose test is false at once). Observables: full event sequence, error, final data vs the Coq interpreter; Go side: variable / arguments absent afterwards, unrelated data undisturbed, items x body in order up to the failure, init,(test,body,post)^n,test. Non-trivial: failure at an inner item / dotted argsPath / >= 2 iterations. Distinct by Gallina term.",
 		Gen: func(r *rand.Rand, tier string, idx int) Case {
-			switch idx % 7 {
+			switch idx % 8 {
 			case 0, 1, 2:
 				return c14ForEach(r)
 			case 3:
 				return c14ForEachContainer(r)
 			case 4, 5:
 				return c14Call(r)
+			case 6:
+				return c14CallInLoop(r)
 			default:
 				return c14Loop(r)
 			}
